@@ -1,4 +1,4 @@
-import Firefly.Proof.PmmHistory
+import Firefly.Proof.PmmInit
 /-!
 # C03 — Frame accounting: all usable RAM allocatable, bad frees rejected, no crash
 
@@ -10,7 +10,43 @@ Freeing a frame that is unmanaged or already free is rejected with an error and 
 while freeing an allocated frame makes exactly that frame allocatable again.
 -/
 namespace Firefly.C03
-open Firefly.Pmm
+open Firefly.Pmm Firefly.Gen.Pmm
+
+/-- the frames of `m` the property calls usable, in the property's own words: wholly inside a region
+reported available, not part of the kernel image `[ksA, keA)`, not among the early allocations `fs` -/
+def Usable (m : List Region) (ksA keA : Nat) (fs : List Nat) (g : Nat) : Prop :=
+  (∃ r ∈ m, r.typ = memAvailable ∧ r.addr ≤ g * 4096 ∧ (g + 1) * 4096 ≤ r.addr + r.len) ∧
+  ¬ (ksA / 4096 ≤ g ∧ g * 4096 < keA) ∧ g ∉ fs
+
+/-- **init_total_and_exact** — for every sorted memory map with fewer than 2^32 frames and every
+kernel placement (page-aligned start, image inside one available region), after any number `k` of
+successful early allocations, initialising the bitmap allocator (vmm seams succeeding) ends in `ok`
+or out-of-memory and never crashes; on `ok` the early allocator has made exactly `k` + metadata-page
+allocations `fs`, the representation invariant holds, and the free set is exactly the usable
+frames. Together with `stats`/`drain_count` this gives: exactly the usable frames can be allocated
+before out-of-memory is reported. -/
+theorem init_total_and_exact (m : List Region) (ksA keA : Nat) (hs : SortedMap m)
+    (hp : KernelPlaced m ksA keA) (hsm : nSum (poolsOf m) < 4294967296) (k : Nat) (b : Boot)
+    (fs0 : List Nat) (hrun : bootRun m k (bootInit ksA keA) = some (b, fs0)) :
+    ((bitmapInit m b true none).outcome = .ok ∨ (bitmapInit m b true none).outcome = .oom) ∧
+    ((bitmapInit m b true none).outcome = .ok →
+      ∃ fs, bootRun m (k + requiredBytes (poolsOf m) / pageSize) (bootInit ksA keA)
+              = some ((bitmapInit m b true none).boot, fs) ∧
+        Inv (bitmapInit m b true none).bm ∧
+        ∀ g, isFree (bitmapInit m b true none).bm g ↔ Usable m ksA keA fs g) := by
+  obtain ⟨h1, h2⟩ := init_spec m ksA keA hs hp hsm k b fs0 hrun
+  refine ⟨h1, fun hok => ?_⟩
+  obtain ⟨fs, hf1, hf2, hf3⟩ := h2 hok
+  refine ⟨fs, hf1, hf2, fun g => ?_⟩
+  rw [hf3 g, managed_iff_available]
+  unfold Usable bootInit
+  simp only
+  have e : pageSize = 4096 := by decide
+  rw [e]
+  have := hp.nonempty
+  constructor
+  · rintro ⟨a, b', c⟩; exact ⟨a, by omega, c⟩
+  · rintro ⟨a, b', c⟩; exact ⟨a, by omega, c⟩
 
 /-- **stats** — in every state satisfying the invariant the reported totals equal the number of
 free frames: `total - reserved = |free set|`. -/
@@ -70,5 +106,19 @@ theorem good_free_accepted (bm : Bitmap) (hI : Inv bm) (f : Nat) (i : Nat)
 bitmap (the model's explicit `panic` result is unreachable). -/
 theorem ops_never_crash (bm : Bitmap) (hI : Inv bm) (f : Nat) : (free bm f).2 ≠ .panic :=
   free_never_panics hI f
+
+/-! ## Non-vacuity -/
+
+def exMap : List Region :=
+  [{ addr := 0x800, len := 0x3900, typ := 1 }, { addr := 0x5000, len := 0x1000, typ := 2 },
+   { addr := 0x10000, len := 65 * 4096, typ := 1 }]
+
+example : SortedMap exMap := by unfold SortedMap exMap; decide
+example : KernelPlaced exMap 0x10000 0x12345 :=
+  ⟨by decide, by decide, ⟨{ addr := 0x10000, len := 65 * 4096, typ := 1 }, by simp [exMap], by decide, by decide, by decide⟩⟩
+example : nSum (poolsOf exMap) = 68 := by decide
+example : (bitmapInit exMap (bootInit 0x10000 0x12345) true none).outcome = .ok := by decide
+example : (bitmapInit exMap (bootInit 0x10000 0x12345) true none).bm.total -
+    (bitmapInit exMap (bootInit 0x10000 0x12345) true none).bm.reserved = 64 := by decide
 
 end Firefly.C03
